@@ -260,7 +260,10 @@ def _named_rejections(ctx):
     ver_seen = 0
     for p in _explicit_raises(eng, sm, "authentication.verify_root"):
         s = p.value.chain[-1]
-        dec = [f for f in p.facts if f[0] in ("ne", "eq", "cmp") and _mentions(f, tv) and _mentions(f, uv)]
+        from .c03 import _excludes_increment
+
+        # (a raise on a path on which the version rule was violated - not one after it passed)
+        dec = [f for f in p.facts if f[0] in ("ne", "cmp") and _mentions(f, tv) and _mentions(f, uv) and _excludes_increment(f, tv, uv)]
         if dec:
             ver_seen += 1
             ctx.ob("R2", "version-mismatch-class|%s" % s.key(), s.loc(), "a root version mismatch is reported as %s (expected MetadataVerificationError)" % p.value.exc, prog.exc_is_sub(p.value.exc, "MetadataVerificationError"))
